@@ -144,7 +144,7 @@ static int cmd_observe_offsets(const char* path, uint64_t nrandom) {
     }
     add_band(xs, INT64_MAX, 4);
     if (f.kind != 2) add_band(xs, INT64_MIN, 4);      // -INT64_MIN is not a displacement of a sign+magnitude format
-    else add_band(xs, INT64_MIN + 1, 3);
+    else for (int k = 1; k <= 4; k++) xs.insert(INT64_MIN + k);
     for (int64_t x : xs) observe_one_offset(out, f, x, rng, w);
     // stratified random: random magnitude class, random sign, half of them multiples of 2^d
     for (uint64_t i = 0; i < nrandom; i++) {
